@@ -36,8 +36,11 @@ func (p LLC) Type() string {
 }
 
 func (p LLC) Payload() []byte {
-	if p.Type() == "u" {
+	if t := p.Type(); t == "u" || t == "snap" { // unnumbered format: 1 byte control field
 		return p[3:]
+	}
+	if len(p) < 4 { // I and S formats: 2 byte control field
+		return nil
 	}
 	return p[4:]
 }
